@@ -15,6 +15,38 @@ import (
 	"verifharness/vio"
 )
 
+// VERIF_IN=<schedules.jsonl> VERIF_OUT=<traces.jsonl> VERIF_VARIANT=drain|cancel VERIF_STILL_S=n: the first schedule's
+// configuration on the real scheduler and the real clock (free.go)
+func TestFree(t *testing.T) {
+	in := vio.Env("VERIF_IN", "")
+	if in == "" {
+		t.Skip()
+	}
+	slog.SetDefault(slog.New(slog.NewTextHandler(io.Discard, nil)))
+	out, err := vio.Create(vio.Env("VERIF_OUT", ""))
+	if err != nil {
+		t.Fatal(err)
+	}
+	defer out.Close()
+	first := true
+	err = vio.ReadLines(in, func(b []byte) error {
+		if !first {
+			return nil
+		}
+		first = false
+		var s Sched
+		if err := json.Unmarshal(b, &s); err != nil {
+			return err
+		}
+		out.Put(RunFree(s, vio.Env("VERIF_VARIANT", "drain"), time.Duration(vio.EnvInt("VERIF_STILL_S", 30))*time.Second))
+		out.Flush()
+		return nil
+	})
+	if err != nil {
+		t.Fatal(err)
+	}
+}
+
 func TestSchedules(t *testing.T) {
 	in := vio.Env("VERIF_IN", "")
 	if in == "" {
